@@ -2,7 +2,7 @@
    order of the rationals the literals denote; the checked-i64 evaluator used as the oracle for
    calc computes ordinary integer arithmetic; further unit-consistency corollaries.
    (f64 rounding and the evalexpr crate themselves are NOT modelled: see Strings.v.) *)
-Require Import DS.Base DS.Utf8 DS.Strings DS.StringsProof.
+Require Import DS.Base DS.Utf8 DS.Strings DS.StringsProof DS.StringsProof2.
 Require Import QArith Qpower.
 Open Scope N_scope.
 
@@ -263,11 +263,11 @@ Qed.
 
 Lemma split_rec s t :
   t <> [] ->
-  (find s t = None -> split s t = [s]) /\
-  (forall p q, s = p ++ t ++ q -> find s t = Some (blen p) -> split s t = p :: split q t).
+  (find s t = None -> Strings.split s t = [s]) /\
+  (forall p q, s = p ++ t ++ q -> find s t = Some (blen p) -> Strings.split s t = p :: Strings.split q t).
 Proof.
-  intros Ht. destruct t as [|x t']; [contradiction|]. unfold split. split.
-  - intros F. rewrite StringsProof2.split_go_absent by exact F. reflexivity.
+  intros Ht. destruct t as [|x t']; [contradiction|]. unfold Strings.split. split.
+  - intros F. rewrite split_go_absent by exact F. reflexivity.
   - intros p q -> F.
     rewrite split_go_first; [reflexivity|discriminate|].
     intros p1 r -> Hr.
